@@ -148,8 +148,17 @@ def obsOpt {ρ} (f : ρ → Acc → Obs) (r : ρ) : Option Acc → Json
   | none => obsJ .undef
 
 /-- answer for one table: model side, spec side, stateful run -/
+def errName : Err → String
+  | .indexError => "IndexError" | .keyError => "KeyError" | .typeError => "TypeError" | .valueError => "ValueError"
+  | .attrError => "AttributeError" | .cobaError => "CobaException"
+
+def errOpt {ρ} (f : ρ → Acc → Option Err) (r : ρ) : Option Acc → Json
+  | some a => match f r a with | some e => Json.str (errName e) | none => Json.null
+  | none => Json.null
+
 def answer {ρ ε} (table : Res (List ρ)) (etable : Res (List ε)) (ri : Nat) (accs : List (Option Acc))
-    (obs : ρ → Acc → Obs) (eobs : ε → Acc → Obs) (run : ρ → List Acc → List Obs) : Json :=
+    (obs : ρ → Acc → Obs) (eobs : ε → Acc → Obs) (run : ρ → List Acc → List Obs)
+    (errf : ρ → Acc → Option Err) (eerrf : ε → Acc → Option Err) : Json :=
   let model := match table with
     | .error _ => obj [("pipe_err", ofNat 1)]
     | .ok rs =>
@@ -157,14 +166,14 @@ def answer {ρ ε} (table : Res (List ρ)) (etable : Res (List ε)) (ri : Nat) (
       | none => obj [("n", ofNat rs.length), ("no_row", Json.bool true)]
       | some r =>
         let plainAccs := accs.filterMap id
-        obj [("n", ofNat rs.length), ("first", ofList (obsOpt obs r) accs),
+        obj [("n", ofNat rs.length), ("first", ofList (obsOpt obs r) accs), ("errs", ofList (errOpt errf r) accs),
              ("run", ofList obsJ (run r (plainAccs ++ plainAccs)))]
   let (spec, hyp) := match etable with
     | .error _ => (Json.null, false)
     | .ok es =>
       match es[ri]? with
       | none => (obj [("n", ofNat es.length), ("no_row", Json.bool true)], true)
-      | some e => (obj [("n", ofNat es.length), ("first", ofList (obsOpt eobs e) accs)], true)
+      | some e => (obj [("n", ofNat es.length), ("first", ofList (obsOpt eobs e) accs), ("errs", ofList (errOpt eerrf e) accs)], true)
   obj [("model", model), ("spec", spec), ("hyp", Json.bool hyp)]
 
 /-- a parsed table of a request: the model's table and what is needed to answer for it -/
@@ -212,12 +221,12 @@ def answerOf (stages : List Stage) (p : Parsed) (out : TableOut) : Json :=
   match p.table, out with
   | .dense pre bases, .dense t =>
     -- hypothesis of `first_row_irrelevant`: every row looks like the first one at every stage
-    (answer t (eagerTableD (pre ++ stages) bases) p.ri p.accs obsD eagerObsD runD).setObjVal! "uniform" (Json.bool (uniformRun (pre ++ stages) (bases.map baseD)))
+    (answer t (eagerTableD (pre ++ stages) bases) p.ri p.accs obsD eagerObsD runD errD eagerErrD).setObjVal! "uniform" (Json.bool (uniformRun (pre ++ stages) (bases.map baseD)))
   | .sparse pre bases, .sparse t =>
     -- hypotheses of the sparse theorems: no stage addresses a hidden raw key of a header-mapped base
     let safe := bases.all (fun b => leakSafe (!(baseS b).leak.isEmpty) (pre ++ stages))
     -- hypothesis of `first_row_irrelevant_sparse`: every dict looks like the first one at every stage
-    ((answer t (eagerTableS (pre ++ stages) bases) p.ri p.accs obsS eagerObsS runS).setObjVal! "leak_safe" (Json.bool safe)).setObjVal!
+    ((answer t (eagerTableS (pre ++ stages) bases) p.ri p.accs obsS eagerObsS runS errS eagerErrS).setObjVal! "leak_safe" (Json.bool safe)).setObjVal!
       "uniform" (Json.bool (uniformRunS (pre ++ stages) (bases.map baseS)))
   | _, _ => obj [("model", obj [("pipe_err", ofNat 1)]), ("spec", Json.null), ("hyp", Json.bool false)]
 
